@@ -177,6 +177,101 @@ M = {
     "shared-build-result-cache": (["C12", "C03"], [("src/spox/_graph.py",
         "        default_factory=_build.Cached\n",
         "        default_factory=lambda _c=_build.Cached(): _c\n")]),
+    # ---- round 6: inputs read only as control-flow operands / only deep inside bodies
+    "cf-operand-arguments-not-discovered": (["C03"], [("src/spox/_build.py",
+        """            [self.source_of[graph]],
+            lambda nd: (a._op for a in nd.dependencies),
+            collect_arguments,""",
+        """            [self.source_of[graph]],
+            lambda nd: (a._op for a in nd.dependencies if not (nd.subgraphs and isinstance(a._op, Argument))),
+            collect_arguments,""")]),
+    "drop-keeps-only-inputs-read-at-depth-le-1": (["C03"], [("src/spox/_public.py",
+        "        used = {info.name: info for info in model_proto.graph.input}\n",
+        "        _seen = {n for nd in model_proto.graph.node for n in nd.input} | {n for nd in model_proto.graph.node for a in nd.attribute if a.HasField('g') for sn in a.g.node for n in sn.input} | {o.name for o in model_proto.graph.output}\n"
+        "        used = {info.name: info for info in model_proto.graph.input if info.name in _seen}\n")]),
+    "scan-inputs-not-followed": (["C03"], [("src/spox/_build.py",
+        """            [self.source_of[graph]],
+            lambda nd: (a._op for a in nd.dependencies),
+            collect_arguments,""",
+        """            [self.source_of[graph]],
+            lambda nd: (a._op for a in (list(nd.dependencies)[:1] if nd.op_type.identifier == "Scan" else nd.dependencies)),
+            collect_arguments,""")]),
+    # ---- round 6 (C12): remnants of an earlier build of the same objects under other names / companions
+    "inline-node-caches-its-protos": (["C12"], [("src/spox/_inline.py",
+        """        inner_renames: Dict[str, str] = {}
+        inner_node_renames: Dict[str, str] = {}
+""",
+        """        _key = (scope.node[self], tuple(sorted((i.domain, i.version) for i in self.model.opset_import)))
+        _cache = self.__dict__.setdefault("_to_onnx_cache", {})
+        if _key in _cache:
+            return [onnx.NodeProto.FromString(b) for b in _cache[_key]]
+        inner_renames: Dict[str, str] = {}
+        inner_node_renames: Dict[str, str] = {}
+"""), ("src/spox/_inline.py",
+        """                    )
+                )
+        return nodes
+""",
+        """                    )
+                )
+        _cache[_key] = [n.SerializeToString() for n in nodes]
+        return nodes
+""")]),
+    "inline-weakkey-cache-by-node-name-opsets": (["C12"], [("src/spox/_inline.py",
+        """class _Inline(_InternalNode):
+""",
+        """import weakref
+
+_INLINE_PROTOS = weakref.WeakKeyDictionary()
+
+
+class _Inline(_InternalNode):
+"""), ("src/spox/_inline.py",
+        """        inner_renames: Dict[str, str] = {}
+        inner_node_renames: Dict[str, str] = {}
+""",
+        """        _key = (scope.node[self], tuple(sorted((i.domain, i.version) for i in self.model.opset_import)))
+        _cache = _INLINE_PROTOS.setdefault(self, {})
+        if _key in _cache:
+            return [onnx.NodeProto.FromString(b) for b in _cache[_key]]
+        inner_renames: Dict[str, str] = {}
+        inner_node_renames: Dict[str, str] = {}
+"""), ("src/spox/_inline.py",
+        """                    )
+                )
+        return nodes
+""",
+        """                    )
+                )
+        _cache[_key] = [n.SerializeToString() for n in nodes]
+        return nodes
+""")]),
+    "node-proto-cached-on-node": (["C12", "C03"], [("src/spox/_node.py",
+        """        assert self.op_type.identifier
+        input_names = [""",
+        """        assert self.op_type.identifier
+        if not list(self.subgraphs) and getattr(self, "_proto_cache", None) is not None and self._proto_cache[0] == scope.node[self]:
+            return [onnx.NodeProto.FromString(self._proto_cache[1])]
+        input_names = ["""), ("src/spox/_node.py",
+        """                node_proto.attribute.append(attr_proto)
+
+        return [node_proto]""",
+        """                node_proto.attribute.append(attr_proto)
+
+        if not list(self.subgraphs):
+            self.__dict__["_proto_cache"] = (scope.node[self], node_proto.SerializeToString())
+        return [node_proto]""")]),
+    # ---- round 6: the statements of build itself (order of the checks, option handling)
+    "empty-outputs-check-first": (["C03"], [("src/spox/_public.py",
+        """    if not all(isinstance(var, Var) for var in inputs.values()):
+        seen_types = {type(obj) for obj in inputs.values()}""",
+        """    if not outputs:
+        raise ValueError("Build outputs must not be empty for the graph to be valid.")
+    if not all(isinstance(var, Var) for var in inputs.values()):
+        seen_types = {type(obj) for obj in inputs.values()}""")]),
+    "with-arguments-also-when-dropping": (["C03", "C12"], [("src/spox/_public.py",
+        "        if not drop_unused_inputs:\n            graph = graph.with_arguments(*inputs.values())",
+        "        if not drop_unused_inputs or len(inputs) == 1:\n            graph = graph.with_arguments(*inputs.values())")]),
 }
 
 
